@@ -332,6 +332,8 @@ class BackupNode(Entity):
         self._replications_applied = 0
         self._backup_reads = 0
         self._last_applied_seq = 0
+        # Newest sequence number accepted per key (replication messages may be reordered)
+        self._key_seq: dict[str, int] = {}
 
     def downstream_entities(self) -> list[Entity]:
         return [self._primary]
@@ -375,11 +377,17 @@ class BackupNode(Entity):
         seq = metadata.get("seq", 0)
         ack_future: SimFuture | None = metadata.get("ack_future")
 
-        # Apply locally
-        yield from self._store.put(key, value)
+        if seq > self._key_seq.get(key, 0):
+            # Apply locally
+            self._key_seq[key] = seq
+            yield from self._store.put(key, value)
+            self._replications_applied += 1
+        else:
+            # Overtaken by a newer write to the same key: keep the newer value. The
+            # write cost is still paid so the ack never precedes the newer apply.
+            yield self._store.write_latency
 
-        self._replications_applied += 1
-        self._last_applied_seq = seq
+        self._last_applied_seq = max(self._last_applied_seq, seq)
 
         # Resolve ack future if present (for SEMI_SYNC/SYNC)
         if ack_future is not None:
